@@ -76,6 +76,10 @@ CHECKS = {
          "PARTIAL: C19_prefixed_faithful / C19_prefixed_whole_lines / C19_interleaving / C19_raw_identity / C19_cockpit_no_crash are proved for all streams, chunkings and interleavings; the full statement is refuted for chunkings that cut an ANSI sequence (C19_refuted_ansi_straddle = known finding K1). Atomicity of a sink Write, spinner timing/lock order and format-independence of results are observed only.",
          "Trusted: Coq kernel; transcription of prefixed.go/raw.go/cockpit.go call structure; Model/Regex.v used for predictions and the K1 class only (validated against Go regexp each run); Go engines output/taskrun-child, python driver. No axioms.",
          "DESIGN.md section 6 C19", "output+taskrun-child"),
+ "C20": ("Coq proof (partial): the executable glob matcher decides the relational glob semantics (literal segments, *, ?, ** as doublestar reads it) for all patterns and paths; selection = include-and-not-exclude; default = all event types; the event loop law (initial run, then one run per delivered subscribed event with its name and path, compositional over histories of any length); registered paths and task runs of the real `taskctl watch` with real inotify compared with the model in Coq; doublestar.Glob/PathMatch validated against the matcher",
+         "PARTIAL: C20_gmatch_correct / C20_selection / C20_default_events / C20_events / C20_keeps_serving hold for all patterns, trees and event histories. inotify/fsnotify delivery (which events an operation produces) is read from the watcher's debug log, not modelled; doublestar is validated, not verified.",
+         "Trusted: Coq kernel; transcription of NewWatcher/Run/handle; doublestar semantics as modelled (validated each run by engine glob); inotify delivery; python driver with real file operations and SIGINT. No axioms.",
+         "DESIGN.md section 6 C20", "cli-watch+glob"),
 }
 
 PENDING = {}
